@@ -979,6 +979,11 @@ def mem_layer(rep, exe, r, tier):
         model = [[] for _ in cases]
         for i, x in zip(owner, res):
             model[i].append(c07_mem.dec_model(x))
+        # the code a creation deploys (only where the instruction sequence reaches the creation)
+        cr_in = [(i, c07_mem.enc_created(c, a, cc)) for i, (c, (a, cc)) in enumerate(zip(cases, built))
+                 if c07_mem.spec_created(c, a, cc) is not None]
+        cr_res = Model(exe).batch([("c07_created", x) for _, x in cr_in]) if cr_in else []
+        model_created = {i: c07_mem.dec_created(cases[i], m) for (i, _), m in zip(cr_in, cr_res)}
     nfi = nbt = 0
     for i, (c, (acc, cc)) in enumerate(zip(cases, built)):
         kinds = c07_mem.classify(c)
@@ -988,6 +993,8 @@ def mem_layer(rep, exe, r, tier):
         rep.count("tag", c["tag"])
         rep.case(c, nontrivial=(isinstance(impl[i], list) or impl[i][0] == "ok") and len(c["ops"]) >= 2)
         d = c07_mem.compare_spec(c, impl[i], [c07_mem.spec_run(c, acc, cc, v) for v in vs[i]])
+        if d is None:
+            d = c07_mem.compare_created(impl[i], c07_mem.spec_created(c, acc, cc), "spec")
         if d is not None:
             nfi += 1
             if nfi <= 6:
@@ -996,6 +1003,8 @@ def mem_layer(rep, exe, r, tier):
             continue
         if model is not None:
             d = c07_mem.compare_model(c, impl[i], model[i])
+            if d is None and i in model_created:
+                d = c07_mem.compare_created(impl[i], model_created[i], "model") if model_created[i][0] != "exc" else {"observable": "deployed-code", "model": model_created[i][1]}
             if d is not None:
                 nbt += 1
                 if nbt <= 4:
